@@ -600,3 +600,80 @@ func TestC02_Raw(t *testing.T) {
 }
 
 var _ = json.Marshal
+
+// ---------------------------------------------------------------------------
+// the message VerifyHashEnvelope hands back is the received message: verifying it again (or countersigning,
+// re-encoding) works on the protected bytes as they came in, whatever encoding the sender chose for them
+
+type c02EnvCase struct {
+	Alg     int64  `json:"alg"`
+	ProtRaw rc.Hex `json:"prot_raw"` // complete bstr item of the protected bucket (peer's encoding choices)
+	Unprot  rc.Val `json:"unprot"`
+	Hash    rc.Hex `json:"hash"`
+}
+
+func checkC02Envelope(c c02EnvCase) error {
+	pn, err := rc.Parse(c.ProtRaw)
+	if err != nil {
+		return fmt.Errorf("bad case: %v", err)
+	}
+	wire := append([]byte{0xd2, 0x84}, c.ProtRaw...)
+	wire = append(wire, rc.Encode(c.Unprot, nil)...)
+	wire = append(wire, rc.Encode(rc.Bytes(c.Hash), nil)...)
+	wire = append(wire, 0x43, 1, 2, 3)
+	want := refcose.SigStructure1(pn.Content, nil, c.Hash)
+	sv := &bridge.SpyVerifier{Alg: cose.Algorithm(c.Alg)}
+	msg, err := cose.VerifyHashEnvelope(sv, append([]byte{}, wire...))
+	if err != nil {
+		stats.Class("envelope-refused/" + shortErr(err))
+		return nil
+	}
+	if !bytes.Equal(sv.Last().Content, want) {
+		return finding("tbs-mismatch/envelope", "VerifyHashEnvelope handed the verifier other bytes than the Sig_structure over the received protected bytes\n got=%x\nwant=%x", sv.Last().Content, want)
+	}
+	sv2 := &bridge.SpyVerifier{Alg: cose.Algorithm(c.Alg)}
+	if err := msg.Verify(nil, sv2); err != nil {
+		return finding("spy-verify-error/envelope", "the message returned by VerifyHashEnvelope does not verify again with an accepting verifier: %v", err)
+	}
+	if !bytes.Equal(sv2.Last().Content, want) {
+		return finding("tbs-mismatch/envelope-returned", "verifying the message VerifyHashEnvelope returned hands the verifier other bytes than the Sig_structure over the received protected bytes\n got=%x\nwant=%x\nwire=%x", sv2.Last().Content, want, wire)
+	}
+	// ... and a countersigner of the returned message is handed the received protected bytes, too
+	spy := &bridge.SpySigner{Alg: cose.AlgorithmEdDSA}
+	if _, err := cose.Countersign0(refcose.NewEntropy(nil), spy, msg, nil); err == nil {
+		n, perr := rc.Parse(spy.Last())
+		if perr != nil || len(n.Items) < 2 || !bytes.Equal(n.Items[1].Content, pn.Content) {
+			return finding("tbs-mismatch/envelope-returned", "countersigning the message VerifyHashEnvelope returned covers other protected bytes than were received\n got=%x\nwant content=%x", spy.Last(), pn.Content)
+		}
+	}
+	if len(rc.DeterminismIssues(mustParse(pn.Content))) > 0 || !pn.MinimalHead() {
+		stats.NTBytes(want)
+		stats.Class("envelope/non-canonical-protected-bytes")
+	}
+	stats.Class("envelope-returned-message-reverified")
+	return nil
+}
+
+func init() { register("c02env", checkC02Envelope) }
+
+func TestC02_EnvelopeReturned(t *testing.T) {
+	begin(t, "C02", "envelope")
+	prop(t, func(rt *rapid.T) {
+		ch := &gen.RChooser{T: rt, Free: true}
+		o := peerHdrOpts()
+		o.MaxEntries = 6
+		o.NoCty = true
+		alg := rapid.SampledFrom([]int64{-7, -8, -37}).Draw(rt, "alg")
+		o.Alg = &alg
+		p, u := gen.Headers(rt, o)
+		hashAlg := rapid.SampledFrom([]int64{-16, -43, -44}).Draw(rt, "hashalg")
+		p = p.With(rc.Int(258), rc.Int(hashAlg))
+		if rapid.Bool().Draw(rt, "location") {
+			p = p.With(rc.Int(260), rc.Text("https://example.com/x"))
+		}
+		c := c02EnvCase{Alg: alg, Unprot: u, Hash: gen.Blob(rt, "hash", hashLen(hashAlg))}
+		c.ProtRaw = rc.Encode(rc.Bytes(rc.Encode(p, ch)), ch)
+		stats.Eval()
+		judge(rt, "c02env", c, checkC02Envelope)
+	})
+}
